@@ -1,6 +1,7 @@
 package main
 
 import (
+	"bytes"
 	"fmt"
 	"strings"
 	"sync"
@@ -124,6 +125,14 @@ func runFanScenario(sc fanScenario) fanResult {
 		eps = append(eps, gomavlib.EndpointCustom{ReadWriteCloser: conns[i]})
 	}
 	n := &gomavlib.Node{Endpoints: eps, Dialect: common.Dialect, OutVersion: gomavlib.V2, OutSystemID: 9, HeartbeatDisable: true}
+	// the node's own version and signing vary with the scenario seed: a version-1 node, a signing node (what it ORIGINATES changes
+	// form; what it forwards does not)
+	switch sc.seed % 4 {
+	case 1:
+		n.OutVersion = gomavlib.V1
+	case 2:
+		n.OutKey = frame.NewV2Key(bytes.Repeat([]byte{0x5A}, 32))
+	}
 	if err := n.Initialize(); err != nil {
 		return fanResult{note: "init-err"}
 	}
@@ -199,18 +208,30 @@ func runFanScenario(sc fanScenario) fanResult {
 					}
 				}
 				execFanOp(n, g, i, o, target)
-				if sc.pace >= 0 {
-					// keep the healthy channels' backlog small: the bound must only bite on the stalled channel
-					want := 0
-					for _, p := range ops[:i+1] {
-						if p.target == 'a' && !p.bad {
-							want++
-						}
-					}
+				if sc.pace >= 0 && (i%8 == 7 || i == len(ops)-1) {
+					// keep the healthy channels' backlog small (bursts of eight): the bound must only bite on the stalled channel
 					dl := time.Now().Add(2 * time.Second)
 					for c := range conns {
 						if c == sc.pace {
 							continue
+						}
+						want := 0
+						for _, p := range ops[:i+1] {
+							if p.bad {
+								continue
+							}
+							switch p.target {
+							case 'a':
+								want++
+							case 't':
+								if p.ch == c {
+									want++
+								}
+							case 'x':
+								if p.ch != c {
+									want++
+								}
+							}
 						}
 						for len(conns[c].snapshotWrites()) < want && time.Now().Before(dl) {
 							time.Sleep(20 * time.Microsecond)
@@ -344,6 +365,7 @@ func randFanOp(r *rngT, k int) fanOp {
 // C11: fan-out, exactly once, FIFO per goroutine, whole frames, below the queue bound.
 func genC11(r *rngT, n int, tier string) {
 	genC11tcp(r, n/6+2)
+	genC11reconn(r, n/10+2)
 	for s := 0; s < n; s++ {
 		k := 1 + r.Intn(4)
 		m := 1 + r.Intn(5)
@@ -396,6 +418,14 @@ func genC13(r *rngT, n int, tier string) {
 		run := 1 + r.Intn(5) // consecutive failing writes / unencodable items
 		for i := 0; i < nitems; i++ {
 			o := fanOp{kind: "mf"[r.Intn(2)], target: 'a'}
+			if mode != "pause" && r.Intn(4) == 0 {
+				// the same goroutine also writes to one channel and to all but one: whatever kind of call, its items stay in order
+				if r.bool() {
+					o.target, o.ch = 't', r.Intn(k)
+				} else {
+					o.target, o.ch = 'x', r.Intn(k)
+				}
+			}
 			if mode == "bad" && i >= 3+at && i < 3+at+run {
 				// items that cannot be encoded for the link, addressed to the victim only (a run of 1..5 in a row)
 				o = fanOp{kind: 'm', target: 't', ch: victim, bad: true}
